@@ -560,6 +560,7 @@ def correspondence(ctx):
     correspondence_masks(ctx)
     correspondence_preds(ctx)
     logabsdet_scaled(ctx)
+    usage_args(ctx)
 
 
 # ---------------------------------------------------------------------------------------------------------------
@@ -866,7 +867,8 @@ ORACLES = [('structural', lambda rep, ctx: oracle_structural(rep, ctx.quick())),
            ('batch_lost', lambda rep, ctx: oracle_batch_lost(rep)),
            ('empty_trailing', lambda rep, ctx: oracle_empty_trailing(rep)),
            ('kde_dtype', lambda rep, ctx: oracle_kde_dtype(rep)),
-           ('logabsdet_scaled', lambda rep, ctx: logabsdet_scaled(ctx, rep))]
+           ('logabsdet_scaled', lambda rep, ctx: logabsdet_scaled(ctx, rep)),
+           ('usage_args', lambda rep, ctx: usage_args(ctx, rep))]
 
 
 def _collect(ctx, names=None):
@@ -916,6 +918,70 @@ def logabsdet_scaled(ctx, report=None):
                     ctx.disagree('c20.logabsdet', case, got, want, 'logabsdet differs from sum(log|diag|) of a triangular matrix')
             elif not ok:
                 report('logabsdet = %r, log|det| = %r' % (got, want), case, {'function': 'logabsdet', 'symptom': 'wrong-value-scaled'})
+
+
+def usage_args(ctx, report=None):
+    """how callers use the helpers: (a) a result kept and edited in place by the caller (a mask flipped for the next layer) must not
+    change what the next call with the same arguments returns; (b) the shape argument of split_leading_dim given as any iterable
+    (list, tuple, torch.Size, numpy array, range-free generator / iterator / map — consumed once) gives the result of the list"""
+    u = U()
+
+    def out(what, case, match, impl=None, want=None):
+        if report is None:
+            ctx.disagree(match['function'], case, impl, want, what)
+        else:
+            report(what, case, match)
+    # (a) freshness of results
+    fresh = [('create_alternating_binary_mask', lambda: u.create_alternating_binary_mask(5, True), [1, 0, 1, 0, 1]),
+             ('create_alternating_binary_mask', lambda: u.create_alternating_binary_mask(4, False), [0, 1, 0, 1]),
+             ('create_mid_split_binary_mask', lambda: u.create_mid_split_binary_mask(5), [1, 1, 1, 0, 0]),
+             ('tile', lambda: u.tile(torch.tensor([1.0, 2.0]), 2), [1.0, 1.0, 2.0, 2.0]),
+             ('repeat_rows', lambda: u.repeat_rows(torch.tensor([[1.0], [2.0]]), 2), [1.0, 1.0, 2.0, 2.0]),
+             ('tril_indices', lambda: u.tril_indices(3, -1), None), ('triu_indices', lambda: u.triu_indices(3, 1), None)]
+    for name, f, want in fresh:
+        if not hasattr(u, name):
+            continue
+        try:
+            a = f()
+            first = a.clone()
+            if torch.is_tensor(a) and a.numel():
+                a.mul_(-1).add_(1)                     # the caller flips / edits its copy in place
+            b = f()
+            ok = torch.equal(b, first) and (want is None or b.reshape(-1).tolist() == want)
+            got = b.reshape(-1).tolist()
+        except Exception as e:
+            ok, got = False, 'raised %s' % type(e).__name__
+        case = {'function': name, 'history': ['r = %s(...)' % name, 'r.mul_(-1).add_(1)', '%s(...) again' % name], 'second_result': got, 'expected': want}
+        if report is None:
+            ctx.case(key=('usage-fresh', name, str(want)), branch='usage/fresh-result', nontrivial=True)
+        if not ok:
+            out('%s: after the caller edited an earlier result in place, the same call returns %s (expected %s)' % (name, got, want if want is not None else 'the first result'),
+                case, {'function': name, 'symptom': 'result-aliased'}, got, want)
+    # (b) the shape argument as any iterable
+    x = torch.arange(24.0).reshape(6, 4)
+    x1 = torch.arange(5.0).reshape(1, 5)
+    kinds = {'list': lambda sh: list(sh), 'tuple': lambda sh: tuple(sh), 'torch.Size': lambda sh: torch.Size(sh), 'numpy': lambda sh: np.array(sh),
+             'generator': lambda sh: (v for v in sh), 'iterator': lambda sh: iter(list(sh)), 'map': lambda sh: map(int, sh)}
+    for xx, sh in ((x, [2, 3]), (x, [3, -1]), (x, [-1, 2]), (x, [6]), (x, [-1]), (x1, [1, 1]), (x, [2, 2])):
+        try:
+            ref = u.split_leading_dim(xx, list(sh)); refk = 'ok'
+        except Exception as e:
+            ref, refk = None, errkind(e)
+        for kn, mk in kinds.items():
+            if kn == 'torch.Size' and any(v < 0 for v in sh):
+                continue
+            try:
+                r = u.split_leading_dim(xx, mk(sh)); k = 'ok'
+            except Exception as e:
+                r, k = None, errkind(e)
+            ok = (k == refk) and (k != 'ok' or (tuple(r.shape) == tuple(ref.shape) and torch.equal(r, ref)))
+            case = {'function': 'split_leading_dim', 'x_shape': list(xx.shape), 'shape_argument': sh, 'given_as': kn,
+                    'result': list(r.shape) if k == 'ok' else k, 'expected': list(ref.shape) if refk == 'ok' else refk}
+            if report is None:
+                ctx.case(key=('usage-iterable', tuple(xx.shape), tuple(sh), kn), branch='usage/shape-iterable/' + kn, nontrivial=True)
+            if not ok:
+                out('split_leading_dim(x%s, shape %s given as %s) -> %s, with a list -> %s' % (list(xx.shape), sh, kn, case['result'], case['expected']),
+                    case, {'function': 'split_leading_dim', 'symptom': 'shape-iterable'}, case['result'], case['expected'])
 
 
 def search(ctx):
